@@ -1212,6 +1212,18 @@ func (li *layoutInterp) execBinOp(st *lpath, x *ssa.BinOp) {
 			res.lin = ri1.lin.Scale(k)
 		}
 	}
+	if res.lin != nil && w > 0 && w < 32 {
+		// arithmetic in a narrow type wraps: the linear form stands for the
+		// result only when the path bounds keep it inside the type
+		lo, hi := st.env.bounds(res.lin)
+		min, max := int64(0), int64(1)<<uint(w)-1
+		if signed {
+			min, max = -(int64(1) << uint(w-1)), int64(1)<<uint(w-1)-1
+		}
+		if lo < min || hi > max {
+			res.lin = nil
+		}
+	}
 	if res.lin != nil {
 		if k, ok := res.lin.IsConst(); ok {
 			res.bv = bvConst(uint64(k), w)
